@@ -55,7 +55,7 @@ SYMS_OUT = ["CEA_2001", "CEA_3xxx", "CEA_5xxx", "CER_known", "DWR", "DWA", "DPR"
 CER_SYMS = {"CER_known", "CER_known_case", "CER_unknown", "CER_nocommon", "CER_relay"}
 
 
-def world_cfg(c, direction, seed=0):
+def world_cfg(c, direction, seed=0, slow_connect=False):
     peers = []
     for i in range(c["peers"]):
         p = {"name": (c.get("configured_names") or [])[i] if i < len(c.get("configured_names") or []) else f"peer{i + 1}.example",
@@ -66,7 +66,7 @@ def world_cfg(c, direction, seed=0):
                 p["persistent"] = True
         peers.append(p)
     return {"peers": peers, "apps": [dict(a, kind="basic", handler="hold") for a in c["apps"]],
-            "node_timers": dict(idle=30, dwa=4, **c["timers"]), "default_dial": "ok", "sched_seed": seed,
+            "node_timers": dict(idle=30, dwa=4, **c["timers"]), "default_dial": "inprogress" if slow_connect else "ok", "sched_seed": seed,
             "vendor_ids": [10415, 13019]}
 
 
@@ -99,7 +99,7 @@ def evaluate(case) -> Result:
     c = CONFIGS[case["cfg"]]
     direction = case["dir"]
     syms = case["syms"]
-    cfg = world_cfg(c, direction, case.get("seed", 0))
+    cfg = world_cfg(c, direction, case.get("seed", 0), slow_connect=bool(case.get("connect_delay")) and direction == "out")
     w = W.NodeWorld(cfg)
     auth, acct = node_apps(c)
     T_node = c["timers"]
@@ -116,9 +116,17 @@ def evaluate(case) -> Result:
                 res.v("C06/outbound/no-dial", "persistent peer was not dialled at start")
                 return res
             conn = w.conns[0]
+            T = pt.get("cea") or T_node["cea"]
+            if case.get("connect_delay"):
+                # the TCP handshake of the dial takes its time (lost SYN): longer than the CEA timeout when
+                # connect_delay is "long"; the wait for the CEA starts when the CER can be sent
+                w.advance(1 if case["connect_delay"] == "short" else T + 2)
+                if conn.refresh():
+                    res.v("C06/outbound/frame-before-connected", f"{[f.brief() for f in conn.out]}")
+                w.connect_result(conn, True)
+                res.classes.append(f"connect-delay:{case['connect_delay']}")
             conn.refresh()
             state = "awaiting"
-            T = pt.get("cea") or T_node["cea"]
             # outbound: the first frame must be a CER carrying the node's identity
             if [f.brief()[:3] for f in conn.out] != ["CER"]:
                 res.v("C06/outbound/first-frame", f"frames after connect: {[f.brief() for f in conn.out]}")
@@ -709,6 +717,10 @@ def shard_main(shard, nshards, tier, scale):
                             jobs.append({"cfg": ci, "dir": direction, "syms": list(seq), "others_ready": True})
                             if any(x in ("ADV1", "ADVT") for x in seq):
                                 jobs.append({"cfg": ci, "dir": direction, "syms": list(seq), "others_ready": True, "busy_other": True})
+    for ci in range(len(CONFIGS)):
+        for delay in ("short", "long"):
+            for seq in (["CEA_2001", "REQ"], ["ADV1", "CEA_2001"], ["ADVT"], ["DWR", "CEA_2001"], ["CEA_5xxx"]):
+                jobs.append({"cfg": ci, "dir": "out", "syms": seq, "connect_delay": delay})
     if shard == 0:
         rec.extra["enumerated_histories"] = len(jobs)
     rec.extra["enumeration_depth"] = depth
@@ -734,7 +746,8 @@ def shard_main(shard, nshards, tier, scale):
                 s = s + "+" + draw(st.sampled_from(["DWR", "DWA", "DPR", "DPA", "REQ", "ANS"]))
             out.append(s)
         return {"cfg": draw(st.integers(0, len(CONFIGS) - 1)), "dir": direction, "syms": out,
-                "seed": draw(st.integers(0, 3)), "others_ready": draw(st.booleans()), "busy_other": draw(st.booleans())}
+                "seed": draw(st.integers(0, 3)), "others_ready": draw(st.booleans()), "busy_other": draw(st.booleans()),
+                "connect_delay": draw(st.sampled_from([None, None, "short", "long"]))}
 
     def body(case):
         res = evaluate(case)
@@ -749,7 +762,7 @@ def run(tier, scale=1.0):
     rec = Recorder(PID)
     for d in hyp.pool_run(shard_main, (tier, scale)):
         rec.merge(d)
-    required = {"connecting-vs-early-bytes": 1, "waiting-sender-vs-cea": 1, "other-peer-busy": 1, "dir:in": 1, "dir:out": 1, "outcome:ready": 1, "outcome:3010": 1, "outcome:5010": 1,
+    required = {"connect-delay:long": 1, "connect-delay:short": 1, "connecting-vs-early-bytes": 1, "waiting-sender-vs-cea": 1, "other-peer-busy": 1, "dir:in": 1, "dir:out": 1, "outcome:ready": 1, "outcome:3010": 1, "outcome:5010": 1,
                 "outcome:rejected": 1, "outcome:timeout": 1, "noise:True": 1, "len:6": 1,
                 "schedule-exploration": 1, "cfg:auth4/configured-name-mixed-case": 1, "other-peers-ready:2": 1, "pipelined-behind-rejected-cer": 1, "pipelined-behind-rejected-cea": 1}
     return finish(rec, tier=tier, level="exploration", rule=RULE, assumptions=ASSUME, t0=t0,
